@@ -147,6 +147,7 @@ def make_driver(cfg):
             G = [z3.Int('g%d_%d' % (ci, i)) for i in range(L)]; B = [z3.Int('b%d_%d' % (ci, i)) for i in range(L)]
             vlen = z3.Int('vlen%d' % ci)
             for x in G + B: ex.assume(z3.And(x >= 0, x < 2**32))
+            if cfg.api == 'single' and L == 1: ex.assume(B[0] == 0)
             ex.assume(z3.And(vlen >= c.get('minv', 1), vlen <= c['maxv']))
             if c.get('maxg') is not None:
                 for x in G: ex.assume(x <= c['maxg'])
@@ -161,7 +162,9 @@ def make_driver(cfg):
                 ex.store(Ptr(g, (i,)), G[i]); ex.store(Ptr(b, (i,)), B[i])
             vptr = Ptr(vec, (0,)) if not c.get('null_vector') else NULL
             ex.user['call_windows'] = 0; ex.user['call_max_files'] = c.get('max_files', cfg.max_files)
-            rec = dict(G=G, B=B, vlen=vlen, ev0=len(ex.events), pre=snapshot(o), malformed=mal, vec=vec, ilen=L, gidx_pre=gidx)
+            if cfg.api == 'single' and L == 1:
+                B = [z3.IntVal(0)]
+            rec = dict(G=G, B=B, vlen=vlen, null_vector=bool(c.get('null_vector')), ev0=len(ex.events), pre=snapshot(o), malformed=mal, vec=vec, ilen=L, gidx_pre=gidx)
             ex.user['calls'].append(rec)
             if cfg.api == 'single' and L == 1:
                 ret = ex.call('@digital_rf_write_hdf5', [o.ptr, G[0], vptr, vlen])
